@@ -812,6 +812,9 @@ func genC11(tier string, seed uint64) []*c11Case {
 	for n := 0; n <= 12; n++ {
 		cases = append(cases, &c11Case{op: "incr", infoVal: make([]byte, n)})
 	}
+	for _, m := range []string{"plain", "metrics-untracked", "metrics-tracked", "metrics-noname", "sentinel-scanner-id"} {
+		cases = append(cases, &c11Case{op: "scanextra", rawMode: m})
+	}
 	// (5) coalescing of partial results
 	for i, sc := range c11CoScripts(tier, rng) {
 		cases = append(cases, &c11Case{op: "coalesce", script: sc, allowPartial: i%7 == 6})
